@@ -4,6 +4,14 @@ import glob, json, os
 
 HERE = os.path.dirname(os.path.dirname(os.path.abspath(__file__)))
 DESC = {
+    "C01-H": ("`retries.sleep()` moved before `response.drain_conn()` in the status-retry branch", "`preload_content=False`/`release_conn=False` + retried 503 with Retry-After + KeyboardInterrupt inside the pause"),
+    "C04-H": ("`_is_connection_error` true for every `ProxyError`", "proxy + non-connect failure towards the proxy (TLS) + `other` budget different from `connect`"),
+    "C05-H": ("connection-error retry recursion drops `redirect`", "`redirect=False` + broken first attempt + 3xx on the re-sent attempt"),
+    "C06-H": ("`if not kw.get(\"headers\")` re-installs manager defaults", "manager default headers carry credentials, hop headers all strippable, cross-origin redirect"),
+    "C09-H": ("proxy headers merged in place unless the mapping is the pool's own", "forwarded request whose headers mapping is reused for a tunnelled one (redirect http -> https)"),
+    "C12-H": ("`x-gzip` alias applied only when it is the whole Content-Encoding value", "two-coding stack that spells one member `x-gzip`"),
+    "C13-H": ("flush guard reads `self.decode_content` instead of the call's `decode_content`", "response created with `decode_content=False`, read with `decode_content=True`, incomplete zstd, partial reads"),
+    "C18-H": ("`ProxyManager.connection_from_host` drops `pool_kwargs` for http targets", "ProxyManager + http target + settings that differ only via `pool_kwargs`"),
     "C01-A": ("EPIPE branch of `_make_request` drops `response_conn`", "EPIPE while sending + readable early reply + `release_conn=False`"),
     "C01-B": ("`conn.close()` moved from `finally` into the `except` tuple of `urlopen`", "BaseException (or non-retryable error) while `urlopen` owns an open connection"),
     "C02-A": ("`_put_conn`: `if not pool.full(): put()` instead of try/except `queue.Full`", "two threads return connections to a non-blocking full pool, preemption between the check and the put"),
